@@ -50,7 +50,7 @@ class Model:
         self.tdead = self.now + self.T
         self.rdead = self.now + self.R
         self.tx = m
-        return [m]
+        return [m] if m is not None else []     # a correspondent may start without anything to send yet
 
     def send(self, m):
         self.tx = m
@@ -68,8 +68,8 @@ class Model:
             self.done = self.failed = True
             return []
         if self.R > 0 and self.now >= self.rdead:
-            self.rdead = self.now + self.R
-            return [self.tx]
+            self.rdead = self.now + self.R     # the redo interval keeps running from start, message or not
+            return [self.tx] if self.tx is not None else []
         return []
 
 
@@ -78,7 +78,7 @@ class Run:
 
     def __init__(self, cfg, history):
         from ioflo.aio.proto import exchanging, stacking, devicing, packeting
-        cls, skind, T, R, spelling, gap, payload = cfg
+        cls, skind, T, R, spelling, gap, payload, first = cfg
         self.cfg = cfg
         self.diverged = None       # (group, what)
         self.construct_error = None
@@ -100,7 +100,8 @@ class Run:
                 def respond(self, rx=None):
                     if rx is not None:
                         self.rx = rx
-                    self.send(self.tx)
+                    if self.tx is not None:       # nothing to answer yet: stay open, the first send comes later
+                        self.send(self.tx)
             klass = Corresponder
         kwa = dict(device=self.device)
         if T is not None:
@@ -116,7 +117,7 @@ class Run:
         # the exchange exists for `gap` before it is started: deadlines count from start(), not from construction
         self.stack.stamper.stamp += gap
         self.model.now += gap
-        self.step(("start", "m1"))
+        self.step(("start", first))
         for op in history:
             if self.diverged:
                 break
@@ -155,7 +156,7 @@ class Run:
                 if cls == "Exchanger":
                     ex.start(self.pk[arg])
                 else:
-                    ex.tx = self.pk[arg]
+                    ex.tx = self.pk[arg] if arg is not None else None
                     ex.start(rx="req")
                 exp = self.model.start(arg)
             got = self.drain()
@@ -191,9 +192,10 @@ class Run:
 
 
 def cfg_str(cfg, spelled=True):
-    cls, skind, T, R, spelling, gap, payload = cfg
-    return "%s(stack=%s, timeout=%r, %s=%r)%s%s" % (cls, skind, T, spelling, R, " started %r after construction" % gap if gap else "",
-                                                   "" if payload == "m2" else " [%s is the zero-length packet]" % payload)
+    cls, skind, T, R, spelling, gap, payload, first = cfg
+    return "%s(stack=%s, timeout=%r, %s=%r)%s%s%s" % (cls, skind, T, spelling, R, " started %r after construction" % gap if gap else "",
+                                                     "" if payload == "m2" else " [%s is the zero-length packet]" % payload,
+                                                     "" if first else " started without a message")
 
 
 def hist_str(history):
@@ -231,7 +233,7 @@ def work(cfg):
             p.outcome("diverged:" + group)
             p.violation(group, "%s %s" % (cfg_str(cfg), hist_str(history)), what,
                         dict(config=cfg_str(cfg), ops_after_start=[list(o) for o in history],
-                             how="construct at stamp 0, advance the stamp by the gap named in config (if any), start with message m1; 'adv d' = stack.stamper.stamp += d then exchange.process(); "
+                             how="construct at stamp 0, advance the stamp by the gap named in config (if any), start with message m1 (or without one if config says so); 'adv d' = stack.stamper.stamp += d then exchange.process(); "
                                  "'send|transmit|message m' = exchange.send/transmit/message(packet m); 'start m' = start again with packet m", divergence=what))
             return True
         if run.ex.failed:
@@ -272,7 +274,9 @@ def configs():
                             if gap and skind != "Stack" and QUICK:
                                 continue          # gaps on one stack kind in the quick tier
                             for payload in (("m2",) if QUICK or gap else ("m2", "m1")):
-                                out.append((cls, skind, T, R, sp, gap, payload))
+                                out.append((cls, skind, T, R, sp, gap, payload, "m1"))
+                                if cls == "Exchangent" and not gap and payload == "m2":
+                                    out.append((cls, skind, T, R, sp, gap, payload, None))   # correspondent that has nothing to send at start
     return spellings, out
 
 
@@ -289,6 +293,9 @@ def run():
     ck.coverage_extra = dict(configurations=len(cfgs), redo_keyword_spellings=spellings, deltas=DELTAS,
                              construct_to_start_gaps=GAPS, timeouts=[repr(t) for t in TIMEOUTS], redo_timeouts=[repr(r) for r in REDOS], max_depth=MAX_DEPTH)
     ck.assumptions = [
+        "an exchange may be started with no message yet (Exchangent subclass whose respond() defers; Exchanger.start() refuses that with ValueError): the redo "
+        "interval still runs from start() and is re-armed at each process() call at which it has elapsed, so the first message sent later is retransmitted at the "
+        "next such point, not immediately (what the unchanged code does)",
         "messages are Packet objects (Exchange.send/transmit hand them to stack.transmit, which calls pkt.pack()); m2 is a zero-length packeting.Packet "
         "(falsy: len 0), m1 an ordinary one (thorough also the other way round); a zero-length packet is a message like any other",
         "process() is the only point where timers are observed: at each call the exchange fails if the overall timeout has elapsed, otherwise "
